@@ -275,7 +275,7 @@ func c18Alphabet(lang int) []string {
 	if c18UnicodeText {
 		// comment / code TEXT beyond ASCII: 2-, 3- and 4-byte characters, the replacement character
 		// written out (valid UTF-8 that decodes to utf8.RuneError), an invalid byte, a truncated sequence
-		for _, s := range []string{"\u00e9", "\u4e16", "\U0001F600", "\ufffd", "\xff", "\xe2\x80", "\r"} {
+		for _, s := range []string{"\u00e9", "\u4e16", "\U0001F600", "\ufffd", "\xff", "\xe2\x80", "\r", "\x00"} {
 			add(s)
 		}
 	}
